@@ -1133,27 +1133,28 @@ fn decorator_markup(decorators: &Vec<Decorator>) -> Markup {
                 Decorator::Url(url) => {
                     m::decorator("@url")
                         + m::operator("(")
-                        + m::string(url.clone())
+                        + m::operator("\"") + m::string(escape_numbat_string(url)) + m::operator("\"")
                         + m::operator(")")
                 }
                 Decorator::Name(name) => {
                     m::decorator("@name")
                         + m::operator("(")
-                        + m::string(name.clone())
+                        + m::operator("\"") + m::string(escape_numbat_string(name)) + m::operator("\"")
                         + m::operator(")")
                 }
                 Decorator::Description(description) => {
                     m::decorator("@description")
                         + m::operator("(")
-                        + m::string(description.clone())
+                        + m::operator("\"") + m::string(escape_numbat_string(description)) + m::operator("\"")
                         + m::operator(")")
                 }
                 Decorator::Example(example_code, example_description) => {
                     m::decorator("@example")
                         + m::operator("(")
-                        + m::string(example_code.clone())
+                        + m::operator("\"") + m::string(escape_numbat_string(example_code)) + m::operator("\"")
                         + if let Some(example_description) = example_description {
-                            m::operator(", ") + m::string(example_description.clone())
+                            m::operator(", ")
+                                + m::operator("\"") + m::string(escape_numbat_string(example_description)) + m::operator("\"")
                         } else {
                             m::empty()
                         }
